@@ -31,7 +31,7 @@ func init() {
 			"Oracle: handler does not panic or fail; total locked and every pool's sent/withdrawn unchanged; module balance == pools and pool bounds; split applied completely (4 new pools with the constants' amounts, validators pool reduced by their sum and renamed) or not at all; shifted accounts keep amounts and move start/end by exactly one calendar year; " +
 			"migrated minter/distributor params validate and equal the legacy ones field for field; no pool or trace disappears. Non-trivial: hard-coded owner present with >=2 pools and >=20 other owners. Distinct by state hash.",
 		Cases:         func(t string) int { return tierN(t, 480, 8000) },
-		MinNontrivial: func(t string) int { return tierN(t, 20, 600) },
+		MinNontrivial: func(t string) int { return tierN(t, 12, 600) },
 		Run:           runC16,
 	})
 }
